@@ -5,8 +5,8 @@ use educe::Educe;
 use core::cmp::Ordering;
 #[derive(Educe)]
 #[educe(Hash)]
-pub enum T { Zed, V1(), None(#[educe(Hash(method = "m_hash"))] A<0>, A<1>, A<2>), C {  } }
-pub fn values() -> Vec<T> { vec![T::Zed, T::V1(), T::None(A(7), A(0), A(7)), T::None(A(0), A(0), A(7)), T::None(A(7), A(7), A(0)), T::None(A(0), A(0), A(1)), T::None(A(0), A(1), A(7)), T::None(A(7), A(0), A(0)), T::None(A(1), A(0), A(7)), T::None(A(0), A(7), A(7)), T::None(A(1), A(0), A(1)), T::None(A(7), A(7), A(7)), T::None(A(0), A(7), A(0)), T::None(A(7), A(1), A(1)), T::C {  }] }
-pub fn show(x: &T) -> String { #[allow(unused_variables)] match x { T::Zed => format!("Zed()"), T::V1() => format!("V1()"), T::None(p0, p1, p2) => format!("None({},{},{})", sv(p0), sv(p1), sv(p2)), T::C {  } => format!("C()") } }
-pub fn o_hash(x: &T) -> Vec<String> { let mut e = Rec::default(); match x { T::Zed => { ::core::hash::Hash::hash(&0usize, &mut e); }, T::V1() => { ::core::hash::Hash::hash(&1usize, &mut e); }, T::None(p0, p1, p2) => { ::core::hash::Hash::hash(&2usize, &mut e); m_hash(p0, &mut e); ::core::hash::Hash::hash(p1, &mut e); ::core::hash::Hash::hash(p2, &mut e); }, T::C {  } => { ::core::hash::Hash::hash(&3usize, &mut e); } } e.0 }
+pub struct T(#[educe(Hash(method = m_hash))] A<0>);
+pub fn values() -> Vec<T> { vec![T(A(0)), T(A(1)), T(A(7))] }
+pub fn show(x: &T) -> String { #[allow(unused_variables)] match x { T(p0) => format!("T({})", sv(p0)) } }
+pub fn o_hash(x: &T) -> Vec<String> { let mut e = Rec::default(); match x { T(p0) => { m_hash(p0, &mut e); } } e.0 }
 pub fn run(out: &mut Out) { let vs = values(); for a in &vs { let mut g = Rec::default(); ::core::hash::Hash::hash(a, &mut g); let e = o_hash(a); out.check(g.0 == e, "hash_10", "hash", || format!("hash({}) fed {:?} expected {:?}", show(a), g.0, e)); } }
